@@ -27,6 +27,12 @@ impl<T: Clone> Relayout<T> {
                 for ax in 0..shape.len() { r.invert_axis(Axis(ax)); }
                 r.as_standard_layout().into_owned()
             }
+            // only the first axis runs backwards in memory (contiguous, last axis of stride 1, but not in C order)
+            "rev0" => {
+                let mut r = base.clone();
+                if !shape.is_empty() { r.invert_axis(Axis(0)); }
+                r.as_standard_layout().into_owned()
+            }
             _ => {
                 // embedded: offset 1 in every axis of a parent that is 2 larger
                 let mut p = ArrayD::from_elem(IxDyn(&shape.iter().map(|d| d + 2).collect::<Vec<_>>()), guard);
@@ -41,6 +47,7 @@ impl<T: Clone> Relayout<T> {
         match self.kind {
             "stepped" => { for ax in 0..self.shape.len() { v.slice_axis_inplace(Axis(ax), ndarray::Slice::new(1, None, 2)); } }
             "rev" => { for ax in 0..self.shape.len() { v.invert_axis(Axis(ax)); } }
+            "rev0" => { if !self.shape.is_empty() { v.invert_axis(Axis(0)); } }
             "embedded" => { for ax in 0..self.shape.len() { let d = self.shape[ax] as isize; v.slice_axis_inplace(Axis(ax), ndarray::Slice::new(1, Some(1 + d), 1)); } }
             _ => {}
         }
@@ -52,6 +59,7 @@ impl<T: Clone> Relayout<T> {
         match self.kind {
             "stepped" => { for ax in 0..shape.len() { v.slice_axis_inplace(Axis(ax), ndarray::Slice::new(1, None, 2)); } }
             "rev" => { for ax in 0..shape.len() { v.invert_axis(Axis(ax)); } }
+            "rev0" => { if !shape.is_empty() { v.invert_axis(Axis(0)); } }
             "embedded" => { for ax in 0..shape.len() { let d = shape[ax] as isize; v.slice_axis_inplace(Axis(ax), ndarray::Slice::new(1, Some(1 + d), 1)); } }
             _ => {}
         }
